@@ -27,7 +27,7 @@ def call_builtin(I, name, args, kwargs, env):
         if isinstance(x, GList):
             return simp(z3.Sum([z3.If(zbool(g), 1, 0) for g, _ in x.items] or [z3.IntVal(0)]))
         if isinstance(x, SSeq):
-            return x.length
+            return I.pipes.observable(x, 'len')
         if isinstance(x, SObj):
             m = x.cls.find_method('__len__')
             if m is not None:
@@ -471,7 +471,7 @@ def str_method(I, s, name, args, kwargs):
         old, new = args[0], args[1]
         if len(args) > 2:
             raise Unsupported('replace with count')
-        if isinstance(old, str) and isinstance(new, str) and len(old) == 1 and len(new) <= 1 and S.only_runs():
+        if isinstance(old, str) and isinstance(new, str) and len(old) == 1 and len(new) <= 1 and S.only_runs() and not S.is_concrete():
             return str_map_chars(S, lambda c: new if c == old else c)
         return I.loops.str_replace(I, S, old, new)
     if name == 'count':
